@@ -325,6 +325,7 @@ Definition body_ok (i : input) (b : body) : Prop :=
   | BJson v => (i_render i = RJson /\ v = json_of (i_resp i)) \/
                (i_render i = RCollection /\ v = collection (i_resp i))
   | BRaw _ => True
+  | BOther => True
   end.
 
 Lemma gin_render_body i h o : gin_render i h = Reply o -> body_ok i (o_body o).
@@ -771,7 +772,7 @@ Lemma json_body_b_iff i o : json_body_b i o = true <-> json_body_ok i o.
 Proof.
   unfold json_body_b, json_body_ok. split.
   - intros H v r Hb Hr. rewrite Hb, Hr in H. destruct (i_render i); auto.
-  - intros H. destruct (o_body o) as [v|s]; [|reflexivity].
+  - intros H. destruct (o_body o) as [v|s|]; [|reflexivity|reflexivity].
     destruct (i_resp i) as [r|]; [|reflexivity].
     specialize (H v r eq_refl eq_refl). destruct (i_render i); auto.
 Qed.
@@ -844,4 +845,228 @@ Proof.
   assert (E : err_status i e = n) by (unfold err_status; rewrite Hs; reflexivity).
   destruct (error_status i e Hr He) as (o & H & S & C & A & _); [rewrite E; apply valid_code_range; exact Hn|].
   exists o. rewrite <- E. auto.
+Qed.
+
+(* ---- exactly when there is no reply ---- *)
+Definition noop_status_panics (gin : bool) (i : input) : bool :=
+  match i_render i, i_resp i with
+  | RNoop, Some r =>
+      (if gin then negb (r_status r <=? 0)%Z else negb (r_status r =? 0)%Z) && negb (valid_code (r_status r))
+  | _, _ => false
+  end.
+Definition panics (i : input) : bool :=
+  match i_impl i with
+  | Gin => match eff_err i, i_resp i with
+           | Some e, None => negb (err_status i e <=? 0)%Z && negb (valid_code (err_status i e))
+           | _, _ => noop_status_panics true i
+           end
+  | _ => if has_data i then noop_status_panics false i
+         else match eff_err i with
+              | Some e => negb (valid_code (err_status i e))
+              | None => noop_status_panics false i
+              end
+  end.
+
+Lemma gin_status_panic_iff code k :
+  (forall st, k st <> Panic) ->
+  (gin_status code k = Panic <-> negb (code <=? 0)%Z && negb (valid_code code) = true).
+Proof.
+  intros Hk. unfold gin_status. destruct (code <=? 0)%Z; cbn.
+  - split; [intros H; destruct (Hk _ H)|discriminate].
+  - destruct (valid_code code); cbn; split; try discriminate; auto. intros H; destruct (Hk _ H).
+Qed.
+Lemma project_not_panic st h b : project st h b <> Panic.
+Proof. unfold project. discriminate. Qed.
+Lemma write_header_panic_iff engine code h b :
+  write_header engine code h b = Panic <-> negb (valid_code code) = true.
+Proof.
+  unfold write_header, project. destruct (valid_code code); cbn; split; try discriminate; auto.
+Qed.
+
+Lemma gin_render_panic_iff i h : gin_render i h = Panic <-> noop_status_panics true i = true.
+Proof.
+  unfold gin_render, noop_status_panics, project.
+  destruct (i_render i); try (split; discriminate).
+  destruct (i_resp i) as [r|]; [|split; discriminate].
+  apply gin_status_panic_iff. intros st. discriminate.
+Qed.
+Lemma mux_render_panic_iff engine i h : mux_render engine i h = Panic <-> noop_status_panics false i = true.
+Proof.
+  unfold mux_render, noop_status_panics, http_error, project.
+  destruct (i_render i); try (split; discriminate).
+  destruct (i_resp i) as [r|].
+  - destruct (r_status r =? 0)%Z; cbn [negb andb]; [split; discriminate|].
+    apply write_header_panic_iff.
+  - rewrite write_header_panic_iff, valid_500. split; discriminate.
+Qed.
+
+Lemma panic_iff i : handler i = Panic <-> panics i = true.
+Proof.
+  unfold handler, panics. destruct (i_impl i).
+  - unfold gin_handler. destruct (eff_err i) as [e|]; [destruct (i_resp i) as [r|]|];
+      try apply gin_render_panic_iff.
+    apply gin_status_panic_iff. intros st. apply project_not_panic.
+  - unfold mux_handler, mux_fallback, has_data, http_error.
+    destruct (i_resp i) as [r|]; [destruct (nonempty r)|]; try apply mux_render_panic_iff;
+      (destruct (eff_err i) as [e|]; [apply write_header_panic_iff|apply mux_render_panic_iff]).
+  - unfold mux_handler, mux_fallback, has_data, http_error.
+    destruct (i_resp i) as [r|]; [destruct (nonempty r)|]; try apply mux_render_panic_iff;
+      (destruct (eff_err i) as [e|]; [apply write_header_panic_iff|apply mux_render_panic_iff]).
+Qed.
+
+(* a reply exists whenever every status on the way is one net/http accepts *)
+Lemma reply_exists i : codes_valid i = true -> exists o, handler i = Reply o.
+Proof.
+  intros H. destruct (handler i) as [o|] eqn:E; [eauto|].
+  apply panic_only_invalid in E. congruence.
+Qed.
+
+(* ---- render selection ---- *)
+Lemma get_render_output im out backs r :
+  out <> "" -> registered im out = Some r -> get_render im out backs = r.
+Proof.
+  intros Hn Hr. unfold get_render, with_fallback. apply str_eqb_neq in Hn. rewrite Hn, Hr. reflexivity.
+Qed.
+Lemma get_render_fallback im out backs :
+  out = "" \/ registered im out = None ->
+  get_render im out backs =
+  match backs with [e] => with_fallback im e (NRender RJson) | _ => NRender RJson end.
+Proof.
+  intros [->|Hr]; unfold get_render; [reflexivity|].
+  destruct (str_eqb out ""); [reflexivity|]. unfold with_fallback at 1. rewrite Hr. reflexivity.
+Qed.
+Lemma registered_common im name r :
+  registered Mux name = Some r -> registered im name = Some r.
+Proof.
+  unfold registered.
+  destruct (str_eqb name "string"), (str_eqb name "json"), (str_eqb name "no-op"),
+    (str_eqb name "json-collection"); try discriminate; auto.
+Qed.
+Lemma registered_mux_plain im name n :
+  im <> Gin -> registered im name = Some n ->
+  exists r, n = NRender r /\ In r [RJson; RNoop; RString; RCollection].
+Proof.
+  intros Hi. unfold registered.
+  destruct (str_eqb name "string"); [intros H; inversion H; eexists; split; [reflexivity|cbn; tauto]|].
+  destruct (str_eqb name "json"); [intros H; inversion H; eexists; split; [reflexivity|cbn; tauto]|].
+  destruct (str_eqb name "no-op"); [intros H; inversion H; eexists; split; [reflexivity|cbn; tauto]|].
+  destruct (str_eqb name "json-collection"); [intros H; inversion H; eexists; split; [reflexivity|cbn; tauto]|].
+  destruct im; [contradiction|discriminate|discriminate].
+Qed.
+Lemma mux_renders im out backs a :
+  im <> Gin -> In (render_of_config im out backs a) [RJson; RNoop; RString; RCollection].
+Proof.
+  intros Hi. unfold render_of_config, get_render.
+  assert (W : forall key fb, (exists r, fb = NRender r /\ In r [RJson; RNoop; RString; RCollection]) ->
+              exists r, with_fallback im key fb = NRender r /\ In r [RJson; RNoop; RString; RCollection]).
+  { intros key fb Hfb. unfold with_fallback. destruct (registered im key) eqn:E; [|exact Hfb].
+    eapply registered_mux_plain; eauto. }
+  assert (J : exists r, NRender RJson = NRender r /\ In r [RJson; RNoop; RString; RCollection])
+    by (eexists; split; [reflexivity|cbn; tauto]).
+  assert (F : exists r, match backs with [e] => with_fallback im e (NRender RJson) | _ => NRender RJson end = NRender r /\
+                        In r [RJson; RNoop; RString; RCollection]).
+  { destruct backs as [|e [|e' l]]; auto. }
+  destruct (str_eqb out "").
+  - destruct F as (r & -> & Hin). exact Hin.
+  - destruct (W out _ F) as (r & -> & Hin). exact Hin.
+Qed.
+Lemma noop_selected im backs a : render_of_config im "no-op" backs a = RNoop.
+Proof. destruct im; reflexivity. Qed.
+Lemma negotiate_total a : In (negotiate a) [RJson; RXml; RYaml].
+Proof. destruct a; cbn; tauto. Qed.
+
+(* ---- the writer-operation layer ---- *)
+Definition sends (o : op) : bool :=
+  match o with OWriteHeader _ | OWrite _ => true | _ => false end.
+Definition touches_headers (o : op) : bool :=
+  match o with OSet _ _ | OSetAbsent _ _ | ODel _ | OAddMeta _ => true | _ => false end.
+(* no header operation after an operation that may send the status line *)
+Fixpoint headers_first (ops : list op) : bool :=
+  match ops with
+  | [] => true
+  | o :: r => (if sends o then forallb (fun x => negb (touches_headers x)) r else true) && headers_first r
+  end.
+
+Lemma ops_headers_first i : headers_first (ops_of i) = true.
+Proof.
+  unfold ops_of, gin_ops, mux_ops, gin_pre_ops, gin_render_ops, mux_render_ops, http_error_ops, io_ops.
+  destruct (i_impl i);
+    (destruct (i_resp i) as [r|];
+     [destruct (nonempty r), (r_complete r), (cache_enabled (i_ttl i)), (r_io r), (r_status r =? 0)%Z|];
+     destruct (eff_err i), (i_render i); reflexivity).
+Qed.
+
+(* operations on other headers do not touch the three the property speaks of *)
+Definition other (k : string) : bool :=
+  negb (str_eqb H_completed k) && negb (str_eqb H_cache k) && negb (str_eqb H_version k).
+Lemma hget_hset_other X k v h : str_eqb X k = false -> hget X (hset k v h) = hget X h.
+Proof. intros H. rewrite hget_hset, H. reflexivity. Qed.
+Lemma hget_absent_other X k v h : str_eqb X k = false -> hget X (hset_absent k v h) = hget X h.
+Proof. intros H. unfold hset_absent. destruct (lookup k h) as [[|x l]|]; try reflexivity; apply hget_hset_other; exact H. Qed.
+Lemma hget_remove_other X k (h : hdrs) : str_eqb X k = false -> hget X (remove k h) = hget X h.
+Proof.
+  intros H. Transparent hget. unfold hget. Opaque hget.
+  rewrite lookup_remove_neq; [reflexivity|]. apply str_eqb_neq. exact H.
+Qed.
+Lemma project_agree st h h' b :
+  hget H_completed h = hget H_completed h' -> hget H_cache h = hget H_cache h' ->
+  hget H_version h = hget H_version h' -> project st h b = project st h' b.
+Proof. unfold project. intros -> -> ->. reflexivity. Qed.
+
+Lemma valid_200 : valid_code 200 = true. Proof. reflexivity. Qed.
+Lemma pos_not_le c : (0 <? c)%Z = negb (c <=? 0)%Z.
+Proof. destruct (c <=? 0)%Z eqn:E; cbn; [apply Z.ltb_ge; apply Z.leb_le; exact E|apply Z.ltb_lt; apply Z.leb_gt; exact E]. Qed.
+
+Global Opaque hset_absent.
+Ltac agree_tac :=
+  apply project_agree;
+  repeat (first [rewrite hget_absent_other by reflexivity | rewrite hget_hset_other by reflexivity
+                | rewrite hget_remove_other by reflexivity]);
+  autorewrite with hdr; reflexivity.
+
+Lemma gin_ops_refine i : exec false (gin_ops i) = gin_handler i.
+Proof.
+  unfold exec, gin_ops, gin_handler, gin_pre_ops, gin_pre, gin_render_ops, gin_render, gin_status, io_ops, cond, base_headers, CT.
+  destruct (i_resp i) as [r|];
+    [destruct (nonempty r), (r_complete r), (cache_enabled (i_ttl i))|];
+    destruct (eff_err i) as [e|]; destruct (i_render i);
+    cbn -[Z.ltb Z.leb Z.eqb]; unfold send; cbn -[Z.ltb Z.leb Z.eqb];
+    try rewrite valid_200; cbn -[Z.ltb Z.leb Z.eqb];
+    try agree_tac.
+  all: rewrite ?pos_not_le, ?andb_true_r; unfold io_body;
+    try (destruct (r_io r));
+    repeat match goal with |- context [(?c <=? 0)%Z] => destruct (c <=? 0)%Z eqn:? end;
+    cbn -[Z.ltb Z.leb Z.eqb]; unfold send; cbn -[Z.ltb Z.leb Z.eqb];
+    rewrite ?valid_200;
+    repeat match goal with |- context [valid_code ?c] => destruct (valid_code c) eqn:? end;
+    cbn -[Z.ltb Z.leb Z.eqb]; try reflexivity; try agree_tac.
+Qed.
+
+Lemma mux_ops_refine engine i : exec engine (mux_ops i) = mux_handler engine i.
+Proof.
+  unfold exec, mux_ops, mux_handler, mux_fallback, mux_pre, mux_render_ops, mux_render, http_error_ops,
+    http_error, write_header, io_ops, io_body, base_headers, CT.
+  destruct engine;
+  (destruct (i_resp i) as [r|];
+    [destruct (nonempty r), (r_complete r), (cache_enabled (i_ttl i))|];
+    destruct (eff_err i) as [e|]; destruct (i_render i);
+    cbn -[Z.ltb Z.leb Z.eqb]; unfold send; cbn -[Z.ltb Z.leb Z.eqb];
+    rewrite ?valid_200, ?valid_500; cbn -[Z.ltb Z.leb Z.eqb];
+    try agree_tac).
+  all: try (destruct (r_io r));
+    repeat match goal with |- context [(?c =? 0)%Z] => destruct (c =? 0)%Z eqn:? end;
+    cbn -[Z.ltb Z.leb Z.eqb]; unfold send; cbn -[Z.ltb Z.leb Z.eqb];
+    rewrite ?valid_200, ?valid_500;
+    repeat match goal with |- context [valid_code ?c] => destruct (valid_code c) eqn:? end;
+    cbn -[Z.ltb Z.leb Z.eqb];
+    repeat match goal with |- context [(?c =? 200)%Z] => destruct (c =? 200)%Z eqn:? end;
+    cbn -[Z.ltb Z.leb Z.eqb]; try reflexivity; try agree_tac.
+Qed.
+
+Lemma handler_ops_refines i : handler_ops i = handler i.
+Proof.
+  unfold handler_ops, handler, ops_of, is_engine. destruct (i_impl i).
+  - apply gin_ops_refine.
+  - apply mux_ops_refine.
+  - apply mux_ops_refine.
 Qed.
